@@ -5,6 +5,7 @@
 package trace
 
 import (
+	"bytes"
 	"bufio"
 	"encoding/json"
 	"fmt"
@@ -107,6 +108,30 @@ type World struct {
 	Failures []Failure
 	Ops      int
 	firstDiffLine int // line of the first correspondence DIFF (-1: none)
+
+	// Foreign: the neighbours of this world encode their answers like a non-Go peer would — the same JSON values,
+	// members sorted by name, indented (legal, and decoded to the same blocks; what a node then holds and serves
+	// must not depend on it)
+	Foreign bool
+}
+
+// Reencode renders the same JSON value with another encoder's habits: object members sorted by name, whitespace
+// after separators, numbers kept digit for digit.  Anything that is not a JSON value is returned unchanged.
+func Reencode(b []byte) []byte {
+	dec := json.NewDecoder(bytes.NewReader(b))
+	dec.UseNumber()
+	var v interface{}
+	if err := dec.Decode(&v); err != nil {
+		return b
+	}
+	if dec.More() {
+		return b
+	}
+	out, err := json.MarshalIndent(v, "", " ")
+	if err != nil {
+		return b
+	}
+	return out
 }
 
 type Failure struct {
@@ -619,6 +644,9 @@ func (w *World) roundInside(n *node.Node, now int64, neigh []Neighbour) ([]map[s
 			c := calls
 			calls++
 			b, err := nb.Answer(h, c)
+			if w.Foreign && err == nil {
+				b = Reencode(b)
+			}
 			rec[i] = append(rec[i], served{h, b, err == nil})
 			return b, err
 		}})
@@ -702,6 +730,9 @@ func (w *World) syncWith(n *node.Node, now int64, neigh []Neighbour, inside func
 			}
 			t := time.Now()
 			b, err := nb.Answer(h, c)
+			if w.Foreign && err == nil {
+				b = Reencode(b)
+			}
 			rec[i] = append(rec[i], served{h, b, err == nil, time.Since(t)})
 			return b, err
 		}})
